@@ -47,7 +47,7 @@ EXPECT = [
 
 
 def sh(cmd, **kw):
-    return subprocess.run(cmd, shell=True, text=True, stdout=subprocess.PIPE, stderr=subprocess.STDOUT, **kw)
+    return subprocess.run(cmd, shell=True, text=True, errors="replace", stdout=subprocess.PIPE, stderr=subprocess.STDOUT, **kw)
 
 
 def main():
